@@ -72,6 +72,15 @@ impl Chooser {
         }
         t
     }
+    /// copy of the tape as consumed so far (for lock-step second runs over the same decisions)
+    pub fn tape_so_far(&self) -> Tape {
+        let mut t = self.tape.clone();
+        t.streams.resize(N_STREAMS, Vec::new());
+        for (i, s) in t.streams.iter_mut().enumerate() {
+            s.truncate(self.pos[i]);
+        }
+        t
+    }
     pub fn consumed(&self) -> usize {
         self.pos.iter().sum()
     }
